@@ -384,7 +384,7 @@ class WalkProp:
         missing = [o for o in ALL_OPS if not ops.get(o + ":ok")]
         missing += [t for t in ("provider_dummy", "receiver_dummy", "provider_deleted", "new_dummy", "vehicle_disappears",
                                 "overflow_start", "overflow_fallback", "conflict_returned", "fit_moved_some",
-                                "segment_with_depot", "formation_of_3plus") if not ops.get("tag:" + t)]
+                                "segment_with_depot", "formation_of_3plus", "cross_type_depot_takeover") if not ops.get("tag:" + t)]
         if missing:
             raise ToolError("vacuous walk corpus: never exercised: %s" % missing)
         # stage snapshots and local-search steps of the pipeline corpus are validated as well
@@ -454,7 +454,19 @@ C12_INVS = ["P_C12_nopanic", "P_C12_loads", "P_C12_mat", "P_C12_insert", "P_C12_
 
 
 class TourProp:
-    def validate(self, prop, cases, out, d, stride=1, rstride=1):
+    def validate(self, prop, cases, out, d, stride=1, rstride=1, batch=1200):
+        """Execute and validate in batches (bounded memory: a batch is dropped before the next starts)."""
+        total = {}
+        for b in range(0, len(cases), batch):
+            part = cases[b:b + batch]
+            counts = self.validate_batch(prop, part, out, d, stride, rstride, b)
+            for k, v in counts.items():
+                total[k] = total.get(k, 0) + v
+            for c in part:
+                c.pop("_I", None)
+        return total
+
+    def validate_batch(self, prop, cases, out, d, stride, rstride, offset):
         by_name = tours_mod.execute(cases, stride=stride, rstride=rstride)
         chunks, index = tours_mod.build_traces(cases, by_name, d)
         viols = run_tlc_chunks("TraceTour", C12_INVS, chunks, "TraceTour", out, max_parallel=12, workers=1)
@@ -471,7 +483,7 @@ class TourProp:
                        "case": {"I": c["I"], "tours": c["tours"], "dummies": c["dummies"], "paths": c["paths"]},
                        "event": {k2: ev[k2] for k2 in ev if k2 != "fig"}}
             detail = json.dumps({k2: ev[k2] for k2 in ev if k2 in ("op", "tour", "path", "s", "e", "res", "removed", "ok", "msg")})
-            out.findings.append(Finding(prop, v["name"], "net%d@%d" % (k, v["l"] - first), sig, detail, payload))
+            out.findings.append(Finding(prop, v["name"], "net%d@%d" % (k + offset, v["l"] - first), sig, detail, payload))
         for ci, p in enumerate(chunks):
             if ci not in traces:
                 pass
@@ -482,6 +494,7 @@ class TourProp:
         for p in chunks:
             os.remove(p)
         out.traces += len(cases)
+        by_name.clear()
         return counts
 
     def run(self, prop, tier, seed):
@@ -489,16 +502,20 @@ class TourProp:
         d = common.cache_dir("tourcases", tier)
         cases = tours_mod.run_gen(tier, out)
         counts = self.validate(prop, cases, out, d)
-        if tier == "quick":
-            # three-node tours and dummy tours: all networks with exactly three unit-length service trips;
-            # every remove / sub_path / depot case, every 9th insert case
-            cases3 = tours_mod.run_gen(tier, out, bnd=tours_mod.bounds3(tier), configs=tours_mod.CONFIGS3)
-            counts3 = self.validate(prop, cases3, out, d, stride=9, rstride=4)
-            for k, v in counts3.items():
-                counts[k] = counts.get(k, 0) + v
-            out.coverage["networks_with_three_trips"] = len(cases3)
-            cases = cases + cases3
-        out.coverage["networks"] = len(cases)
+        # three-node tours and dummy tours: quick = all networks with exactly three unit-length service trips
+        # (every remove / sub_path case, every 9th insert); thorough = all networks with exactly three
+        # activities (<= 1 slot, durations 1-2) on the 3-point grid (every 4th remove case per network kept via
+        # the depot stride, every 25th insert)
+        cases3 = tours_mod.run_gen(tier, out, bnd=tours_mod.bounds3(tier), configs=tours_mod.CONFIGS3)
+        st, rst = (9, 4) if tier == "quick" else (25, 8)
+        counts3 = self.validate(prop, cases3, out, d, stride=st, rstride=rst)
+        for k, v in counts3.items():
+            counts[k] = counts.get(k, 0) + v
+        out.coverage["networks_with_three_activities"] = len(cases3)
+        out.coverage["bounds_three"] = tours_mod.bounds3(tier)
+        ncases = len(cases) + len(cases3)
+        cases = cases[:1]
+        out.coverage["networks"] = ncases
         out.coverage["executed_cases"] = counts
         out.coverage["bounds"] = tours_mod.bounds(tier)
         out.coverage["exhaustive"] = True
